@@ -60,15 +60,15 @@ func (r *realExec) Exec(line string) (out string) {
 	var ev []string
 	switch op {
 	case "init":
-		seed, mast := false, true
+		seed := 0
 		for _, a := range args {
-			if v, ok := kv(a, "seed"); ok {
-				seed = v == "1"
+			if v, ok := kv(a, "seed"); ok && (v == "0" || v == "1" || v == "2") {
+				seed = int(v[0] - '0')
 			} else {
 				return "bad-op"
 			}
 		}
-		if err := w.init(seed, !mast); err != nil {
+		if err := w.init(seed); err != nil {
 			return "harness-error " + err.Error()
 		}
 	case "append":
